@@ -377,6 +377,76 @@ def r16_4(ctx: Ctx):
         obs.append(ctx.ob("R16.4", f, eta_stmt, status=OK if guard_prec else VIOLATION, detail="ETA store guarded by |fitness - optimum| <= precision" if guard_prec else "ETA store is not guarded by |fitness - optimum| <= precision", construct="eta-precision-guard"))
         if "store:hit_precision" not in kinds:
             obs.append(ctx.ob("R16.4", f, eta_stmt, status=VIOLATION, detail="the path that stores ETA does not set hit_precision", construct="eta-sets-flag"))
+    # completeness: a forwarding path that does NOT store ETA is taken only when the hit was recorded before or the value is
+    # outside the precision. Propositional check per path: (conditions of the path) and (within precision) and (no hit yet)
+    # must be unsatisfiable; further conditions are free atoms.
+    import itertools
+
+    def is_abs_(e):
+        return isinstance(e, ast.Call) and norm(e.func) in ("abs", "np.abs", "numpy.abs", "math.fabs", "np.absolute") and "_global_optima" in norm(e)
+
+    def formula(e, atoms):
+        if isinstance(e, ast.BoolOp):
+            return ("and" if isinstance(e.op, ast.And) else "or", [formula(v, atoms) for v in e.values])
+        if isinstance(e, ast.UnaryOp) and isinstance(e.op, ast.Not):
+            return ("not", [formula(e.operand, atoms)])
+        if is_self_attr(e, "hit_precision", selfn):
+            return ("atom", "H")
+        if isinstance(e, ast.Compare) and len(e.ops) == 1:
+            l, r, op = e.left, e.comparators[0], e.ops[0]
+            if is_abs_(l) and "precision" in norm(r) and isinstance(op, (ast.LtE, ast.Gt)):
+                return ("atom", "P") if isinstance(op, ast.LtE) else ("not", [("atom", "P")])
+            if is_abs_(r) and "precision" in norm(l) and isinstance(op, (ast.GtE, ast.Lt)):
+                return ("atom", "P") if isinstance(op, ast.GtE) else ("not", [("atom", "P")])
+        k = "X:" + norm(e)
+        atoms[k] = e
+        return ("atom", k)
+
+    def ev(fm, val):
+        if fm[0] == "atom":
+            return val[fm[1]]
+        if fm[0] == "not":
+            return not ev(fm[1][0], val)
+        if fm[0] == "and":
+            return all(ev(x, val) for x in fm[1])
+        return any(ev(x, val) for x in fm[1])
+
+    written_here = set()
+    for n_ in body_walk(f.node):
+        tg_ = n_.targets if isinstance(n_, ast.Assign) else [n_.target] if isinstance(n_, (ast.AugAssign, ast.AnnAssign)) else []
+        for t_ in tg_:
+            if is_self_attr(t_, None, selfn) and t_.attr not in ("ETA", "hit_precision", counter):
+                written_here.add(t_.attr)
+    n_other = 0
+    for s in sums:
+        kinds = [e[0] for e in s.events]
+        if "store:ETA" in kinds or s.forwards == 0:
+            continue
+        n_other += 1
+        atoms = {}
+        fms = [(formula(c.ast, atoms), lab) for c, lab in s.conds if c.ast is not None]
+        names = ["P", "H"] + sorted(atoms)
+        if len(names) > 10:
+            continue
+        sat = None
+        for bits in itertools.product([False, True], repeat=len(names) - 2):
+            val = dict(zip(names[2:], bits))
+            val["P"], val["H"] = True, False
+            if all(ev(fm, val) == bool(lab) for fm, lab in fms):
+                sat = val
+                break
+        if sat is None:
+            continue
+        hist = [a_ for k_, a_ in atoms.items() if any(is_self_attr(x, None, selfn) and x.attr in written_here for x in ast.walk(a_)) or "worse_than" in norm(a_)]
+        where_ = next((c.ast for c, lab in s.conds if c.ast is not None), f.node)
+        if not atoms:
+            obs.append(ctx.ob("R16.4", f, where_, status=VIOLATION, detail="a path forwards the evaluation, finds the value within the precision with no hit recorded yet, and still does not store ETA: the first hit is missed", construct="eta-complete"))
+        elif hist:
+            obs.append(ctx.ob("R16.4", hist[0] if False else f, hist[0], status=VIOLATION, detail=f"whether a value within the precision is recorded as the first hit also depends on `{norm(hist[0])[:80]}`, i.e. on the values evaluated before: when that condition sends the evaluation past the test, the first evaluation within the precision is not the one recorded (ETA stays unset or is set later)", construct="eta-complete"))
+        else:
+            obs.append(ctx.ob("R16.4", f, where_, status=INCONCLUSIVE, detail=f"a forwarding path skips the precision test under `{' , '.join(sorted(k_[2:] for k_ in atoms))[:100]}`: cannot tell whether a first hit can be missed", construct="eta-complete"))
+    if n_other and not any(o.construct == "eta-complete" for o in obs):
+        obs.append(ctx.ob("R16.4", f, f.node, detail=f"every forwarding path that does not store ETA ({n_other}) is taken only after a recorded hit or outside the precision", construct="eta-complete"))
     # flag stores
     for f2 in ctx.prog.all_functions():
         if f2.name == "<module>":
